@@ -140,7 +140,8 @@ func IntFromString(str string, base int) (Object, error) {
 
 	// Detect leading zeros which Python doesn't allow using base 0
 	// (unless the number is zero: "00" is fine, "01" is not)
-	if base == 0 {
+	// (after a 0x / 0o / 0b prefix zeros are digits like any other)
+	if base == 0 && convertBase == 10 {
 		if len(s) > 1 && s[0] == '0' && (s[1] >= '0' && s[1] <= '9') && strings.Trim(s, "0") != "" {
 			goto error
 		}
